@@ -21,7 +21,7 @@ TEXTS = {
         "technique": "Lean 4 proof of sub-claims over executable model + correspondence + re-scan oracle",
     },
     "C03": {
-        "text": "Lean theorems for the fixpoint lemmas (lower-casing, trimming, blank-line clamp, newline read-back); the composition relies "
+        "text": "Lean theorems for the fixpoint lemmas (lower-casing, trimming, blank-line clamp, newline read-back, idempotence of the line-comment and compiler-directive rules and of the whole comment formatter); the composition relies "
                 "on wrapper contracts decided by a format-twice oracle on every well-formed case (partial). Known finding F10.",
         "design_ref": "DESIGN.md section 5 (C03)",
         "note": "Wrapper determinism and ReflowFresh are contracts, not theorems.",
@@ -61,7 +61,7 @@ TEXTS = {
     },
     "C14": {
         "text": "Lean theorems quantified over every operation trace of the line-building primitives (ordering, disjointness, coverage "
-                "of the pass), consolidation, directive lines, single pass without conditionals. Exact models replayed against the "
+                "of the pass), consolidation, directive lines, single pass without conditionals; every conditional-directive pass of every file is strictly increasing and in range (passes_sorted_in_range), so the line-builder theorems hold for every pass without side condition (file_lines_wellformed). Exact models replayed against the "
                 "real parser's hook trace and output on every case; direct C14 oracle on the parser output.",
         "design_ref": "DESIGN.md section 5 (C14)",
         "note": "Which primitive is called when is the parser's grammar knowledge: universally quantified in the theorems, taken from "
@@ -80,7 +80,7 @@ TEXTS = {
     },
     "C08": {
         "text": "Lean theorems on the reconstructor for every token list with canonical counters: gap shape (none/one space, or 1-2 breaks "
-                "plus whole indentation units), whole-unit indentation, end-of-file newline, spacing rule values <= 1. Exact models of the "
+                "plus whole indentation units), whole-unit indentation, end-of-file newline, spacing rule values <= 1, and after TokenSpacing no token is preceded by more than one space whatever the original spacing (spacing_at_most_one, via layout invariance). Exact models of the "
                 "rules feeding the counters are differentially checked; a line-scanner oracle checks the real output of every case.",
         "design_ref": "DESIGN.md section 5 (C08)",
         "note": "The canonical-counters premise is the wrapper contract (tallied per case, not proved for the search); known findings F5, "
@@ -107,7 +107,7 @@ TEXTS = {
     },
     "C12": {
         "text": "Lean theorems on the exact model of the multi-line string re-indenter (line-by-line specification: values unchanged, exact "
-                "indentation, configured terminators, rejection rule, untouched when off/ignored). The model is checked against the "
+                "indentation, configured terminators, rejection rule, untouched when off/ignored; re-indentation changes blanks only: mls_only_blanks_change). The model is checked against the "
                 "wrapper stage's before/after token contents on every case and a per-literal value oracle runs on the real formatter "
                 "over a targeted family (3/5/7 quotes, LF/CR/CRLF, tab/space/U+3000/control indentation, short/blank/over-indented lines).",
         "design_ref": "DESIGN.md section 5 (C12)",
